@@ -37,7 +37,10 @@ impl FileSystem for PhysicalFS {
         let entries = Box::new(
             self.get_path(path)
                 .read_dir()?
-                .map(|entry| entry.unwrap().file_name().into_string().unwrap()),
+                // entries that cannot be read are skipped, names that are not valid UTF-8 are
+                // reported lossily (they cannot be addressed through a str path anyway)
+                .filter_map(|entry| entry.ok())
+                .map(|entry| entry.file_name().to_string_lossy().into_owned()),
         );
         Ok(entries)
     }
@@ -48,11 +51,13 @@ impl FileSystem for PhysicalFS {
         let fs_path = self.get_path(path);
         std::fs::create_dir(&fs_path).map_err(|err| match err.kind() {
             ErrorKind::AlreadyExists => {
-                let metadata = std::fs::metadata(&fs_path).unwrap();
-                if metadata.is_dir() {
-                    return VfsError::from(VfsErrorKind::DirectoryExists);
+                // (the metadata of e.g. a dangling symlink cannot be read: it is not a directory)
+                match std::fs::metadata(&fs_path) {
+                    Ok(metadata) if metadata.is_dir() => {
+                        VfsError::from(VfsErrorKind::DirectoryExists)
+                    }
+                    _ => VfsError::from(VfsErrorKind::FileExists),
                 }
-                VfsError::from(VfsErrorKind::FileExists)
             }
             _ => err.into(),
         })?;
